@@ -14,7 +14,22 @@ ASSUMPTIONS = [
     'the wire process on the real kernel refines the FifoServer LTS: checked by replay (labels from Process.target), not proved',
     'Cable: the two wires are replayed as two independent model instances fed only with their own arrivals and draws',
 ]
-TRUSTED_EXTRA = ['the kernel guarantees (G1-G3) that make `tick` admissible only at quiescence are theorems of model K (C01), assumed for the device LTS']
+TRUSTED_EXTRA = ['the kernel guarantees (G1-G3) that make `tick` admissible only at quiescence are theorems of model K (C01), assumed for the device LTS',
+                 'py2lean/elem.py + elements.py (typed AST-subset translator that splits a server generator at its `yield env.timeout` statements; '
+                 'hand-written field schema of Wire objects, declared effects `self.store.put(packet)`, `packet.current_time = self.env.now`, `self.out.put(packet)`; external inputs `random.uniform(0, 1)`, `self.delay_dist()`); '
+                 'the bridge theorems C10.wire_put_generated_eq_model, C10.wire_run_generated_eq_model tie its output to the model']
+BRIDGES = ['C10.wire_put_generated_eq_model', 'C10.wire_run_generated_eq_model']
+HAND_MODELLED = ['Wire.run (the `while True` / `get` frame; the round itself is translated)', 'Wire.__init__', 'Cable.set_endpoints']
+_PREP = {}
+
+
+def prepare(ctx):
+    """regenerate lean/OnlVerif/Generated/Wire.lean from the source under $ONL_REPO (a translator failure or a bridge
+    theorem that no longer compiles is a broken obligation)"""
+    from py2lean import translate, elements
+    _PREP['translated'] = elements.TRANSLATED['Wire']
+    _PREP['rewritten'] = translate.regenerate_all(only=('Wire',))
+    _PREP['diff_vs_pinned'] = translate.diff_vs_pinned('Wire')
 
 
 class Sink:
@@ -673,4 +688,6 @@ def run(ctx):
            'operation_histogram': dict(sorted(hist.items()))}
     cov['oracle_only_cases'] = {'evaluations': len(bbcases), 'what': 'black-box environments of 1-2 wires / cables with identical traffic (put/out/env.run only): '
                                 'order, exact clamping to the previous delivery, loss patterns across devices and across seeds', 'histogram': dict(sorted(bbhist.items()))}
+    cov.update({'translated': _PREP.get('translated', []), 'generated_files_rewritten': _PREP.get('rewritten', []),
+                'generated_diff_vs_pinned': _PREP.get('diff_vs_pinned', []), 'bridge_theorems': BRIDGES, 'hand_modelled': HAND_MODELLED})
     return {'coverage': cov, 'disagreements': dis, 'oracle_failures': orc}
